@@ -51,7 +51,8 @@ def validDenom (d : String) : Bool :=
   | [] => false
   | c :: cs => isAlpha c && cs.all isDenomChar && 2 ≤ cs.length && cs.length ≤ 127
 
-def hasLptPrefix (d : String) : Bool := d.startsWith "lpt"
+/-- `strings.HasPrefix(d, "lpt")` -/
+def hasLptPrefix (d : String) : Bool := ("lpt".toList).isPrefixOf d.toList
 
 def allDigits (s : String) : Bool := !s.isEmpty && s.toList.all (fun c => c ≥ '0' && c ≤ '9')
 def digitsVal (s : String) : Nat := s.toList.foldl (fun n c => 10 * n + (c.toNat - '0'.toNat)) 0
@@ -102,6 +103,9 @@ deriving Repr
 def insertPool : List Pool → Pool → List Pool
   | [], p => [p]
   | q :: qs, p => if p.counter < q.counter then p :: q :: qs else q :: insertPool qs p
+
+/-- `types.GetLptDenom`: `fmt.Sprintf("lpt-%d", sequence)` -/
+def lptName (n : Nat) : Denom := "lpt-" ++ Nat.repr n
 
 def lookupD {β : Type} (l : List (Denom × β)) (d : Denom) : Option β :=
   match l with
@@ -225,12 +229,14 @@ def newCoins2 (a b : Denom × Nat) : Coins :=
 def swapEffs (sender rcpt escrow : Addr) (dSold : Denom) (sold : Nat) (dBought : Denom) (bought : Nat) : List Eff :=
   [.xfer sender escrow dSold sold, .xfer escrow rcpt dBought bought]
 
+/-- the denomination of the pair that is not the standard coin -/
+def counterOf (std d1 d2 : Denom) : Denom := if d1 == std then d2 else d1
+
 /-- `GetLptDenomFromDenoms` followed by `GetReservePoolAddr` and `GetPoolBalances` -/
 def poolFor (env : Env) (s : State) (d1 d2 : Denom) : R (Pool × Addr) :=
   ensure (d1 != d2) (.invalid "equal denom") >>= fun _ =>
   ensure (d1 == s.std || d2 == s.std) (.invalid "no standard denom") >>= fun _ =>
-  let counter := if d1 == s.std then d2 else d1
-  match s.poolByCounter counter with
+  match s.poolByCounter (counterOf s.std d1 d2) with
   | none => .error (.notFound "pool")
   | some p =>
     env.reserve p.lpt >>= fun esc =>
@@ -338,7 +344,7 @@ def planAdd (env : Env) (s : State) (sender : Addr) (tok : Denom) (maxTok exact 
     poolTax s.params.feeAmt s.params.taxRate >>= fun tax =>
     ensure (decide (tax ≤ s.params.feeAmt)) .negative >>= fun _ =>
     initialChecks s.params exact minLiq >>= fun _ =>
-    let lpt := s!"lpt-{s.seq}"
+    let lpt := lptName s.seq
     env.reserve lpt >>= fun esc =>
     let pool : Pool := { counter := tok, lpt := lpt, escrow := esc }
     .ok { branch := .create, pool := pool, stdIn := exact, tokIn := maxTok, mint := exact,
